@@ -66,10 +66,6 @@ Definition sres_print (r : sres tks) : bytes :=
    | None => bs "!fuel"
    end) ++ bs " g=" ++ bool_print (sp_stuck (s_prod r)).
 
-(* number of Reads allowed: more than the characters that can reach the pipe (Text() at most triples a
-   token's bytes); "!fuel" in the output would say that it was not enough *)
-Definition fuel_for (doc : bytes) : nat := S (S (S (3 * List.length doc))).
-
 Definition stream_run (srcpat rbufpat : list nat) (doc : bytes) : bytes :=
   sres_print (armor_stream_decode (cut_doc srcpat doc) (size_fun rbufpat) (fuel_for doc)).
 (* the code before /repo commit 0dac441 (proposed-fixes/C10-decoder-goroutine-leak-b64err.diff) *)
